@@ -365,7 +365,7 @@ fn run(ctx: &mut Ctx) {
     }
     // (3) random unicode
     let mut r = ctx.rng(9);
-    let n = ctx.scaled(if small { 300 } else { t.pick(300_000, 6_000_000) }) / ctx.nshards as u64;
+    let n = ctx.scaled(if small { 300 } else { t.pick(1_500_000, 12_000_000) }) / ctx.nshards as u64;
     for _ in 0..n {
         let s = random_unicode(&mut r, 200);
         if !run_string(ctx, &mut loc, &s) {
